@@ -126,6 +126,10 @@ fn judge(obs: &mut Obs, which: &str, case: &C12Case, n: usize, full: bool, stamp
 				let others = stamps.iter().enumerate().any(|(j, ss)| j != i && ss.iter().any(|s| s == e));
 				if full {
 					obs.check(stamps[i].len() == 1 && *e == stamps[i][0], &format!("c12/{which}-entry-not-positional"), || format!("entry {i} = {e:?}, stamped {:?}; {}", stamps[i], desc()));
+				} else if stamps[i].len() == 1 && *e != stamps[i][0] && !others {
+					// the reply answers this entry exactly once: whatever is wrong with the reply concerns other entries, and
+					// a call that succeeds reports this entry's own outcome
+					obs.fail(format!("c12/{which}-singly-answered-entry-lost"), format!("entry {i} = {e:?}, the reply answers it once with {:?}; {}", stamps[i][0], desc()));
 				} else if others && !own {
 					obs.fail(format!("c12/{which}-entry-filled-with-another-entrys-answer"), format!("entry {i} = {e:?}; {}", desc()));
 				} else if !own {
@@ -318,13 +322,9 @@ impl SubCheck for Positional {
 				}
 				let out = match client.batch_request::<Value>(b).await {
 					Ok(r) => {
-						let (ok, failed, len) = (r.num_successful_calls(), r.num_failed_calls(), r.len());
-						let entries: Vec<Stamp> = r.into_iter().map(|e| e.map_err(|e| (e.code(), e.message().to_string()))).collect();
-						let ok2 = entries.iter().filter(|e| e.is_ok()).count();
-						if ok != ok2 || failed != entries.len() - ok2 || len != entries.len() {
-							Outcome::BatchCounts(format!("num_successful_calls={ok} num_failed_calls={failed} len={len} entries={entries:?}"))
-						} else {
-							Outcome::BatchOk(entries)
+						match crate::props::c03::batch_views(r) {
+							Ok(entries) => Outcome::BatchOk(entries),
+							Err(d) => Outcome::BatchCounts(d),
 						}
 					}
 					Err(e) => crate::props::c03::err_outcome(e),
@@ -430,13 +430,7 @@ impl SubCheck for Typed {
 			}
 		};
 		let collect = |r: jsonrpsee_core::client::BatchResponse<'_, Nonce>| -> Res {
-			let (ok, failed, len) = (r.num_successful_calls(), r.num_failed_calls(), r.len());
-			let entries: Vec<Result<Nonce, (i32, String)>> = r.into_iter().map(|e| e.map_err(|e| (e.code(), e.message().to_string()))).collect();
-			let ok2 = entries.iter().filter(|e| e.is_ok()).count();
-			if ok != ok2 || failed != entries.len() - ok2 || len != entries.len() {
-				return Ok(vec![]).and_then(|_: Vec<Result<Nonce, (i32, String)>>| Err(format!("COUNTS num_successful_calls={ok} num_failed_calls={failed} len={len} entries={entries:?}")));
-			}
-			Ok(entries)
+			crate::props::c03::batch_views(r).map_err(|d| format!("COUNTS {d}"))
 		};
 		const NAMES: [&str; 6] = ["t0", "t1", "t2", "t3", "t4", "t5"];
 		let mut b = BatchRequestBuilder::new();
